@@ -392,7 +392,7 @@ PROPS["C13"] = dict(
                 "gone, old1 ++ old2, old2) while every other name is untouched (C13_create_file .. C13_preconditions). A request list is answered one for one in order, each "
                 "request runs on the filesystem its predecessors left, the first failure stops execution and the rest is answered Not performed (C13_run_requests); inside "
                 "finalize_receive the list of the Metadata PDU runs exactly so after the file copy, the responses are recorded and put in the user's Finished indication "
-                "(C13_recv_runs_requests), copied into the Finished PDU (C13_finished_pdu_responses) and handed unchanged to the sending user (C13_send_user_responses). "
+                "(C13_recv_runs_requests), copied into the Finished PDU (C13_finished_pdu_responses) and handed unchanged to the sending user (C13_send_user_responses); the whole post-state of the three remaining actions: a successful rename of a plain file moves exactly that file (new name holds what the old one held, old name gone, every other path unchanged: C13_rename_file), remove directory removes exactly the directory and everything below it (C13_remove_directory), create directory adds exactly one empty directory (C13_create_directory; Props/C13r.lean). "
                 "'Only after a successful delivery, once': C10_no_partial + C04_final. Tie to the code: fs engine (real process_request on a scratch directory)."),
     level_note=("Trusted: Lean kernel; the filestore model (lean/Cfdp/Model/Fs.lean: the part of std::fs that NativeFileStore uses, as a finite map; no permissions, symlinks or I/O "
                 "errors other than missing parent / wrong node kind) is tied to cfdp-core/src/filestore.rs by the fs engine, which runs every request on the real filestore in a "
